@@ -18,6 +18,9 @@ var verifPools bool
 
 func init() { verifPools = true }
 
+//go:linkname verifResetPools sync.verifResetPools
+func verifResetPools()
+
 func setMapSeed(s uint64) {
 	verifSelectSeq = 0
 	if s == 0 {
